@@ -132,7 +132,7 @@ class BaseNode(Node):
         """
         if value is None and self.value_raw:
             self.value = self.cast_value()
-        elif value:
+        elif value is not None:
             self.value = value
         else:
             self.value = None
